@@ -369,10 +369,11 @@ func checkOnce(t *T, prop func(*T)) (err *testError) {
 	if t.tbLog {
 		t.tb.Helper()
 	}
+	cleaned := false
 	defer func() {
 		// A panic raised by a Cleanup function replaces the outcome of prop, except that
 		// skipping (invalid data) during cleanup can not undo a falsification.
-		if errC := panicToError(recover(), 3); errC != nil && !(errC.isInvalidData() && err != nil && !err.isInvalidData()) {
+		if errC := panicToError(abnormalEnd(recover(), cleaned), 3); errC != nil && !(errC.isInvalidData() && err != nil && !err.isInvalidData()) {
 			err = errC
 		}
 		if err == nil || err.isInvalidData() {
@@ -384,12 +385,27 @@ func checkOnce(t *T, prop func(*T)) (err *testError) {
 		}
 	}()
 
-	defer t.cleanup()
-	defer func() { err = panicToError(recover(), 3) }() // the outcome of prop itself, before any Cleanup function runs
+	defer func() { t.cleanup(); cleaned = true }()
+	finished := false
+	defer func() { err = panicToError(abnormalEnd(recover(), finished), 3) }() // the outcome of prop itself, before any Cleanup function runs
 	prop(t)
 	t.failOnError()
+	finished = true
 
 	return nil
+}
+
+// panicNil stands in for the nil that recover returns for panic(nil) when GODEBUG=panicnil=1
+// (the default for main modules that declare go 1.20 or older).
+const panicNil = "panic called with nil argument (or runtime.Goexit)"
+
+// abnormalEnd turns the result of recover into a non-nil value
+// whenever the guarded function did not run to its end.
+func abnormalEnd(r any, finished bool) any {
+	if r == nil && !finished {
+		return panicNil
+	}
+	return r
 }
 
 func captureTestOutput(tb tb, prop func(*T), buf []uint64) []byte {
